@@ -1,19 +1,21 @@
 """Shared driver of the three ledger checks C05 / C11 / C12 (spec/Ledger.tla, spec/LedgerOps.tla, spec/TraceLedger.tla,
 adapter `ledger`).  generate -> execute -> validate: TLC enumerates abstract scenarios (transaction kinds between the
-accounts of a small universe, amount classes, 1-2 blocks); the adapter turns every behaviour into REAL signed
-transactions, mines a real block after every transaction with the real assembler and feeds each finished block to a
-second real node through DPoVP.InsertBlock; TLC validates what was logged against the property monitor."""
+accounts of a small universe, amount classes, 1-2 blocks in the middle of the genesis term; 1-4 blocks - interim
+blocks, the REWARD block, the blocks after it - around a term boundary with shrunk term / interim durations); the
+adapter turns every behaviour into REAL signed transactions, mines a real block after every transaction with the real
+assembler and feeds each finished block to a second real node through DPoVP.InsertBlock; TLC validates what was logged
+against the property monitor."""
 import os, sys
 sys.path.insert(0, os.path.join(os.path.dirname(os.path.dirname(os.path.abspath(__file__))), "lib"))
 from vlib import Broken
 
-INVS = "NonNegative Conservation VotesAtBoundary SupplyEqualsEquity NothingForbiddenIncluded"
+INVS = "NonNegative Conservation DepositsBacked VotesAtBoundary SupplyEqualsEquity NothingForbiddenIncluded"
 
 
 def _validate(ctx, files, what, consts, groups=4):
     """Trace validation is single-threaded per TLC run (-workers 1): validate the shard files in `groups` parallel runs."""
     import concurrent.futures, time
-    if sum(os.path.getsize(f) for f in files) < 60e6:
+    if sum(os.path.getsize(f) for f in files) < 25e6:
         groups = 1
     parts = [files[i::groups] for i in range(groups)]
     parts = [p for p in parts if p]
@@ -26,8 +28,9 @@ def _validate(ctx, files, what, consts, groups=4):
         return all(list(ex.map(one, enumerate(parts))))
 
 
-def run(ctx, check, exhaustive, negatives, sim, sim_quick, sim_thorough, depth):
-    """exhaustive: cfg name per tier; negatives: [(cfg, expected violated invariant/property names)]"""
+def run(ctx, check, exhaustive, negatives, sim, sim_quick, sim_thorough, depth, term=None):
+    """exhaustive: cfg name per tier; negatives: [(cfg, expected violated invariant/property names)];
+    term: the term-boundary worlds - dict(graph={tier: cfg}, sim=cfg, sim_quick=n, sim_thorough=n, depth=d)"""
     ctx.build()
     consts = {"CHECK": check}
     # design side: the properties hold on the model with every deviation off ...
@@ -47,23 +50,56 @@ def run(ctx, check, exhaustive, negatives, sim, sim_quick, sim_thorough, depth):
     n = sim_quick if ctx.quick() else sim_thorough
     glob_ = ctx.tlc_simulate("MCLedger", "MCLedger_%s.cfg" % sim, num=n, depth=depth, prefix="led_" + check)
     files2, summ2 = ctx.replay("ledger", sim=glob_, shards=16, name="ledger_%s_sim" % check, timeout=3000)
+    # around a term boundary (term / interim duration shrunk, the snapshot block of term 1 in the setup chain): every
+    # transition of a graph whose blocks are the interim block, the reward block and the block after it; and a seeded
+    # simulation of a wider universe in which every committed block becomes stable (fresh node pair per behaviour)
+    files3 = files4 = []
+    if term:
+        tcfg = term["graph"]["quick" if ctx.quick() else "thorough"]
+        tdot = ctx.path("ledger_%s_term.dot" % check)
+        ctx.tlc_exhaustive("MCLedger", "MCLedger_%s.cfg" % tcfg, timeout=1500, dump=tdot, coverage=False)
+        files3, summ3 = ctx.replay("ledger", graph=tdot, shards=16, maxlen=24, name="ledger_%s_termgraph" % check, timeout=3000)
+        n = term["sim_quick"] if ctx.quick() else term["sim_thorough"]
+        glob3 = ctx.tlc_simulate("MCLedger", "MCLedger_%s.cfg" % term["sim"], num=n, depth=term["depth"], prefix="ledt_" + check)
+        files4, summ4 = ctx.replay("ledger", sim=glob3, shards=16, name="ledger_%s_termsim" % check, timeout=3000)
     # code -> spec: the monitor judges the log
     if ctx.quick():
-        ok = ok2 = _validate(ctx, files + files2, "state graph %s + simulated behaviours %s" % (cfg, sim), consts)
+        ok = ok2 = ok3 = _validate(ctx, files + files2 + files3 + files4, "state graphs %s + simulated behaviours %s"
+                                   % (" ".join([cfg] + ([tcfg] if term else [])), " ".join([sim] + ([term["sim"]] if term else []))), consts)
     else:
         ok = _validate(ctx, files, "state graph %s" % cfg, consts)
         ok2 = _validate(ctx, files2, "simulated behaviours %s" % sim, consts)
+        ok3 = _validate(ctx, files3 + files4, "term boundary: state graph %s + simulated behaviours %s" % (tcfg, term["sim"]), consts) if term else True
     ctx.cov["samples"] = summ["samples"]
     ctx.cov["exhaustive"] = summ["behaviours"] == summ["behaviours_total"]
     ctx.extra["graph"] = dict(cfg=cfg, nodes=summ["graph_nodes"], edges=summ["graph_edges"], behaviours=summ["behaviours"],
                               behaviours_in_tour=summ["behaviours_total"], real_blocks_mined=summ["steps"], accepted=ok, actions=summ["action_counts"])
     ctx.extra["simulation"] = dict(cfg=sim, behaviours=summ2["behaviours"], real_blocks_mined=summ2["steps"], accepted=ok2,
                                    actions=summ2["action_counts"])
+    if term:
+        ctx.cov["exhaustive"] = ctx.cov["exhaustive"] and summ3["behaviours"] == summ3["behaviours_total"]
+        ctx.extra["term_graph"] = dict(cfg=tcfg, nodes=summ3["graph_nodes"], edges=summ3["graph_edges"], behaviours=summ3["behaviours"],
+                                       behaviours_in_tour=summ3["behaviours_total"], real_blocks_mined=summ3["steps"], accepted=ok3,
+                                       actions=summ3["action_counts"])
+        ctx.extra["term_simulation"] = dict(cfg=term["sim"], behaviours=summ4["behaviours"], real_blocks_mined=summ4["steps"], accepted=ok3,
+                                            actions=summ4["action_counts"])
     ctx.assumptions += [
-        "universe: 4 key-holding accounts, the deputies' income account, 2 deputies, founder, deposit pool, zero address, 5 contracts "
+        "universe: 4 key-holding accounts, the deputies' income account, the 2 genesis deputies' miner accounts, founder (= reward manager), "
+        "the reward precompile, deposit pool, zero address, 5 contracts "
         "(accept / revert / invalid opcode / selfdestruct to self / selfdestruct to caller); every address named in block.ChangeLogs must be "
         "inside it (harness failure otherwise)",
         "amounts in units of 10^15 mo with gas price 1-2 units (chain.TotalLEMO lowered to 10^6 LEMO, MinCandidateDeposit to 300 LEMO) so "
         "that sums fit TLC's 32-bit integers; a logged amount that is not a whole number of units is rejected by the monitor",
         "gasUsed and the miner's packaging decisions are adopted from the real log; the monitor recomputes every balance / tally / equity from them",
-        "heights 4-5 of the first term: no reward block, no interim period, no deputy-set change"]
+        "mid-term world: heights 4-5 of the genesis term with the real term / interim durations, blocks never confirmed",
+        "term-boundary worlds (C05, C11): params.TermDuration = 5 or 6, InterimDuration = 1 or 2, params.TermRewardPoolTotal lowered to "
+        "600000 LEMO; setup block 4 gives both genesis deputies a deposit, registers a4 and lets M1 and a4 vote for a3; the snapshot block "
+        "(empty, stable, part of the setup chain) elects a3 and M2 - the election itself and snapshot blocks that carry transactions are "
+        "C10 / C13's subject; scenario blocks are interim block(s), the reward block of term 0 and up to two blocks of term 1, mined by the "
+        "re-elected genesis deputy; one reward block per behaviour (the reward of term 1 is set but never paid)",
+        "the reward block enumerates refunds from the node's candidate index, which follows STABLE blocks: in the graph worlds scenario blocks "
+        "stay unconfirmed (refunds reach the candidates registered in the setup chain: M1, a4; a3 and M2 are deputies of term 1), in the "
+        "simulated term world every committed block is stabilised (validator: InsertConfirms with the other deputy's signature; builder: "
+        "store.SetStableBlock) and later registrations are refunded too; the index is logged with every state and adopted by the monitor",
+        "which accounts are deputies of a term (by node id), the income account and votes of every node of a term are read from the real "
+        "deputy manager / account state at the start of a behaviour"]
